@@ -578,6 +578,7 @@ def case_runner_results(ctx, rng, idx):
     repetition limit and counts) through every route."""
     from . import c05
     spec = c05.gen_spec(rng)
+    spec.vector_result = False
     if spec.skip_kind in ("first", "last"):
         spec.skip_kind = "none"
     tag = c05.spec_tag(spec)
